@@ -18,10 +18,14 @@ try:
     m = re.search(r'test result: ok\. (\d+) passed; 0 failed', out); assert m and int(m.group(1)) == 49, 'patched tree does not pass the 49 tests: ' + out
     demo = open('%s/demo_test.rs.txt' % src).read()
     fm = re.search(r'src/[\w_]+\.rs', demo); target = fm.group(0) if fm else 'src/key_transforms.rs'
-    tn = re.search(r'fn\s+(\w+)\s*\(', demo).group(1)
+    tm = re.search(r'#\[test\]\s*(?:#\[[^\]]*\]\s*)*fn\s+(\w+)\s*\(', demo)
+    tn = tm.group(1) if tm else re.search(r'fn\s+(\w+)\s*\(', demo).group(1)
     path = os.path.join(wt, target); text = open(path).read()
-    i = text.rindex('}')
-    open(path, 'w').write(text[:i] + '\n' + demo + '\n' + text[i:])
+    if re.search(r'^\s*(#\[cfg\(test\)\]\s*)?mod\s+\w+\s*\{', demo, re.M) and 'dev_input_rw' in target:
+        open(path, 'w').write(text + '\n' + demo + '\n')
+    else:
+        i = text.rindex('}')
+        open(path, 'w').write(text[:i] + '\n' + demo + '\n' + text[i:])
     rc1, out1 = sh('cargo test --offline %s 2>&1 | tail -30' % tn, cwd=wt); ran.append('cargo test --offline %s (patched + demo): %s' % (tn, [l for l in out1.split('\n') if 'test result' in l][-1:] ))
     assert 'FAILED' in out1 or 'failed' in out1 and '1 failed' in out1, 'demo does not fail with the patch: ' + out1[-800:]
     rc, out = sh('git apply -R %s/patch.diff' % src, cwd=wt); assert rc == 0, 'reverse apply: ' + out
